@@ -275,7 +275,7 @@ func (x *Exec) callMayWriteHeap(call *ast.CallExpr) bool {
 		}
 		return false
 	case *types.Func:
-		if o.Pkg() != nil && (o.Pkg().Path() == "math" || o.Pkg().Path() == "math/bits" || o.Pkg().Path() == "strconv" || o.Pkg().Path() == "strings" || o.Pkg().Path() == "unicode" || o.Pkg().Path() == "unicode/utf8") {
+		if o.Pkg() != nil && pureExternalPkgs[o.Pkg().Path()] {
 			return false
 		}
 		if isSpecHelper(o) || libPure[o.FullName()] {
